@@ -7,6 +7,7 @@ import RosedVerif.Model.InstAFacts
 import RosedVerif.Model.CompositeLemmas
 import RosedVerif.Spec.CompositeLemmas
 import RosedVerif.Model.Totality2
+import RosedVerif.Model.BridgeComposite
 namespace RosedVerif.Props
 open RosedVerif
 
@@ -78,5 +79,45 @@ theorem C15_empty {α : Type} [DecidableEq α] (cx : Ctx α) (ed : Editor α) (p
 /-- total on arbitrary code-point input -/
 theorem C15_total (ed : Editor Int) (p : Int) (d : List (List Int × List Int)) (w : Int) (o : Options Int) :
     ∃ r, ed.insertDefTableOpts cxA p d w o = .ok r := insertDefTableOpts_total cxA_Sane ed p d w o
+
+/-- **bridge to code points**: on a stable vocabulary the model of InsertDefinitionsTableOpts run on CODE POINTS with the real segmentation returns the flattening of the cluster-level text of `C15_model`; every paragraph line re-segments to its cluster line and the definition text starts at real-cluster column T + 6 (T = longest term in clusters) on every line -/
+theorem C15_code_points {V : List (List Int)} (hV : VocabStable V = true)
+    (hsp : [0x20] ∈ V)
+    (hhy : [0x2D] ∈ V)
+    (hspTail : ∀ t ∈ V, (0x20 : Int) ∉ t.tail)
+    (toks : List (List Int))
+    (ht : ∀ t ∈ toks, t ∈ V)
+    (o0 : Options (List Int))
+    (pos : Int)
+    (defs : List (List (List Int) × List (List Int)))
+    (hd1 : ∀ d ∈ defs, ∀ t ∈ d.1, t ∈ V)
+    (hd2 : ∀ d ∈ defs, ∀ t ∈ d.2, t ∈ V)
+    (width : Int)
+    (o : Options (List Int))
+    (hS : BridgeOps.GoodSep V (o.withDefaults cxB).lineSep)
+    (hP : ∀ t ∈ (o.withDefaults cxB).paraSep, t ≠ [])
+    (hne : defs ≠ []) :
+    Editor.insertDefTableOpts cxA (.root toks.flatten o0.flat) pos
+        (defs.map fun d => (d.1.flatten, d.2.flatten)) width o.flat =
+      .ok (.root (toks.take (Spec.normPos toks.length pos).toNat ++
+        (joinWith (o.withDefaults cxB).paraSep (defs.map fun item =>
+          joinWith (o.withDefaults cxB).lineSep
+            (defParaLines cxB (maxLineLen (defs.map (·.1))) item.1
+              (defRc (colLines cxB item.2
+                (max (width - ((maxLineLen (defs.map (·.1)) : Int) + 2) - 2 - 2) 2)
+                (o.withDefaults cxB).lineSep)))) ++
+          (if (o.withDefaults cxB).noTrailing = true then [] else (o.withDefaults cxB).lineSep)) ++
+        toks.drop (Spec.normPos toks.length pos).toNat).flatten o0.flat) ∧
+    ∀ item ∈ defs, ∀ (rc : List (List (List Int))),
+      rc = defRc (colLines cxB item.2
+        (max (width - ((maxLineLen (defs.map (·.1)) : Int) + 2) - 2 - 2) 2)
+        (o.withDefaults cxB).lineSep) →
+      (defParaLines cxB (maxLineLen (defs.map (·.1))) item.1 rc).length = rc.length ∧
+      ∀ (i : Nat) (hi : i < (defParaLines cxB (maxLineLen (defs.map (·.1))) item.1 rc).length),
+        clusters cxA ((defParaLines cxB (maxLineLen (defs.map (·.1))) item.1 rc)[i]).flatten =
+          (defParaLines cxB (maxLineLen (defs.map (·.1))) item.1 rc)[i] ∧
+        (clusters cxA ((defParaLines cxB (maxLineLen (defs.map (·.1))) item.1 rc)[i]).flatten).drop
+          (maxLineLen (defs.map (·.1)) + 6) = rc.getD i [] :=
+  insertDefTableOpts_bridge_C15 hV hsp hhy hspTail toks ht o0 pos defs hd1 hd2 width o hS hP hne
 
 end RosedVerif.Props
